@@ -127,3 +127,11 @@ pub trait ConstFirstRef<const N: usize, T: Copy + 'static> {
 pub trait ConstFirstBorrow<'a, const N: usize, T: Copy + 'static, const M: usize, U: 'static> {
     fn fill_bor(&self, value: &'a T, other: [U; M]) -> ([T; N], usize);
 }
+
+// a generic method with BOTH a type and a const parameter
+#[entrait(unimock = false)]
+pub trait Widen {
+    fn widen<U: From<u8>, const N: usize>(&self, raw: [u8; N]) -> [U; N];
+    fn only_const<const N: usize>(&self, raw: [u8; N]) -> usize;
+    fn lt_type_const<'a, U: 'a, const N: usize>(&self, raw: &'a [U; N]) -> &'a U;
+}
